@@ -5,7 +5,7 @@
     (e2e matrix of not-selected conditions x entry points x roles, inbound data while not selected,
     pipelining at every cut point, gate scenarios compared for equality with the model). *)
 From Coq Require Import ZArith Bool List Lia.
-From GoSecs Require Import Hsms.SendCore Hsms.SendCoreMon Hsms.SendCoreGate Hsms.SendCoreInvSteps Hsms.SendCoreGateMon Hsms.SendCoreDeclared Hsms.SendCoreWire.
+From GoSecs Require Import Base.GoInt Gen.Gen Gen.BridgeSendCore Hsms.SendCore Hsms.SendCoreMon Hsms.SendCoreGate Hsms.SendCoreInvSteps Hsms.SendCoreGateMon Hsms.SendCoreDeclared Hsms.SendCoreWire.
 Import ListNotations.
 Open Scope Z_scope.
 
@@ -189,3 +189,15 @@ Example C07_nonvacuous : exists s os,
   In (OPeerRecv 1 (-1) (mkF 1 0 4 0 7 50 [])) os /\
   In (OHandler 0 3) os /\ In (OHandler 0 4) os /\ ok_C07 os = true.
 Proof. eexists. eexists. split; [vm_compute; reflexivity|]. vm_compute. tauto. Qed.
+
+(** The constants and the SType validity table the model uses ARE the current source (Gen.v is
+    regenerated from /repo on every check). *)
+Theorem C07_bridge_valid_stype : forall b, 0 <= b < 256 -> Gen.hsms.IsValidSType b = valid_stype b.
+Proof. exact bridge_valid_stype. Qed.
+Theorem C07_bridge_builders : forall f,
+  f_st (reject_not_selected f) = Gen.hsms.RejectReqType /\ f_b3 (reject_not_selected f) = Gen.hsms.RejectNotSelected /\
+  f_b3 (reject_not_open f) = Gen.hsms.RejectTransactionNotOpen /\
+  f_st (select_rsp f Gen.hsms.SelectStatusSuccess) = Gen.hsms.SelectRspType /\
+  f_st (deselect_rsp f Gen.hsms.DeselectStatusSuccess) = Gen.hsms.DeselectRspType /\
+  f_st (linktest_rsp f) = Gen.hsms.LinktestRspType.
+Proof. exact bridge_builders. Qed.
